@@ -347,6 +347,55 @@ theorem source_epoch_split (v v2 : Rat) :
     simp only [Midgard.Generated.SrcTime.jdToJdsSrc, Midgard.Generated.SrcTime.mjdToJdsSrc, splitMidnight, splitMjd,
       Midgard.Generated.SrcTime.HasFloor.floor, h5]
 
+/-! #### Refusal survives Python's operator dispatch (reflected methods, plain numbers, `sum`)
+
+`pyBinop reflRefuses`: `a.__add__(b)`, then — for operands of different classes — `b.__radd__(a)`, then `TypeError`.  The
+switch is read off the regenerated operator table of the tree under test. -/
+
+/-- regenerated table: `+`/`-` are defined by `TimeArray` and `TimeDeltaArray` only, and their `__radd__`, `__rsub__`,
+`__iadd__`, `__isub__` are stubs that return `NotImplemented`; no scale class overrides any of them -/
+theorem reflected_ops_refuse :
+    srcReflRefuses = true ∧
+    Midgard.Generated.TimePurity.operators.length = 12 := by decide +kernel
+
+/-- **mixing scales is refused by the whole `+` / `-` expression**, for every operator, every pair of kinds, every pair of
+different scales and every value on either side — scalars, arrays, zero durations, all-zero and empty arrays included -/
+theorem mixed_scale_refused_dispatch (op : Op) (ka kb : Kind) (sa sb : Scale) (va vb : Val) (h : sa ≠ sb) :
+    pyBinop srcReflRefuses op (.obj ka sa va) (.obj kb sb vb) = .typeError := by
+  rw [reflected_ops_refuse.1]
+  simp [pyBinop, mixed_scale_refused_arrays op ka kb sa sb va vb h, reflected, h]
+
+/-- a plain number on either side (`d + 0`, `0 + d`, `t - 0`, …) never yields a value: `AttributeError` from the scale guard
+when it is on the right, `TypeError` when it is on the left; hence `sum([d₁, d₂, …])` (which starts from the plain 0) fails
+at its first step -/
+theorem plain_operand_refused (op : Op) (k : Kind) (s : Scale) (v : Val) (z : Bool) (ds : List Operand) :
+    pyBinop srcReflRefuses op (.obj k s v) (.plain z) = .attributeError ∧
+    pyBinop srcReflRefuses op (.plain z) (.obj k s v) = .typeError ∧
+    pySum srcReflRefuses (.obj k s v :: ds) = some .typeError := by
+  rw [reflected_ops_refuse.1]
+  refine ⟨rfl, by simp [pyBinop, reflected], ?_⟩
+  have h0 : pyBinop true .add (.plain true) (.obj k s v) = .typeError := by simp [pyBinop, reflected]
+  simp only [pySum, h0]
+  induction ds with
+  | nil => rfl
+  | cons d rest ih => simpa [List.foldl_cons] using ih
+
+/-- within one scale the dispatch changes nothing: the value is the array model's -/
+theorem same_scale_dispatch_value (b : Bool) (op : Op) (ka kb : Kind) (s : Scale) (va vb v : Val) (k : Kind)
+    (h : binopV op ka s va kb s vb = .ok k v) : pyBinop b op (.obj ka s va) (.obj kb s vb) = .ok k s v := by
+  simp [pyBinop, h]
+
+/-- the switch matters: a `__radd__` that lets the start value of `sum()` through by `not np.any(other)` also lets a zero
+duration of another scale through — `TimeDelta(0, utc) + TimeDelta(1.5 d, gps)` is then the GPS duration (and an all-zero
+or empty array on the left does the same), while a non-zero left operand is still refused -/
+theorem lenient_radd_mixes_scales :
+    pyBinop false .add (.obj .delta .utc (.scalar ⟨0, 0⟩)) (.obj .delta .gps (.scalar ⟨1, 1 / 2⟩)) = .ok .delta .gps (.scalar ⟨1, 1 / 2⟩) ∧
+    pyBinop false .add (.obj .delta .utc (.array [⟨0, 0⟩, ⟨-1, 1⟩])) (.obj .delta .gps (.scalar ⟨1, 1 / 2⟩)) = .ok .delta .gps (.scalar ⟨1, 1 / 2⟩) ∧
+    pyBinop false .add (.obj .time .utc (.array [])) (.obj .delta .gps (.scalar ⟨1, 1 / 2⟩)) = .ok .delta .gps (.scalar ⟨1, 1 / 2⟩) ∧
+    pyBinop false .add (.obj .delta .utc (.scalar ⟨1, 0⟩)) (.obj .delta .gps (.scalar ⟨1, 1 / 2⟩)) = .typeError ∧
+    pySum false [.obj .delta .utc (.scalar ⟨1, 0⟩), .obj .delta .utc (.scalar ⟨2, 1 / 4⟩)] = some (.ok .delta .utc (.scalar ⟨3, 1 / 4⟩)) := by
+  decide +kernel
+
 /-! ### "to better than 1 ns for durations up to decades": the rounding-error budget
 
 `Proofs/TimeFloat.lean`: `Rounding` = any rounding function with relative error ≤ `u` per operation that returns multiples of
@@ -537,3 +586,8 @@ end Midgard.Props.C03
 #print axioms Midgard.Props.C03.epoch_ctor_pure
 #print axioms Midgard.Props.C03.aliasing_ctor_shares
 #print axioms Midgard.Props.C03.source_epoch_split
+#print axioms Midgard.Props.C03.reflected_ops_refuse
+#print axioms Midgard.Props.C03.mixed_scale_refused_dispatch
+#print axioms Midgard.Props.C03.plain_operand_refused
+#print axioms Midgard.Props.C03.same_scale_dispatch_value
+#print axioms Midgard.Props.C03.lenient_radd_mixes_scales
